@@ -77,7 +77,7 @@ def _content(us, tag, cached):
     if kind == "inh":
         return head + '<%%inherit file="%s"/>' % us["ref"] + "T%s[${x}]" % t
     if kind == "ns":
-        return head + '<%%namespace name="n" file="%s"/>' % us["ref"] + "T%s[${x}]${n.f()}" % t
+        return head + fdef + '<%%namespace name="n" file="%s"/>' % us["ref"] + "T%s[${x}]${n.f()}" % t
     if kind == "base":
         return head + "B%s[${x}](${context['next'].body() if 'next' in context.keys() else ''})" % t
     if kind == "broken":
